@@ -565,8 +565,261 @@ def gen_capi(rng, n, tier):
             L.append("capi %s misc %s %s" % (fn, E1.aff(rng.choice(pts1)), E2.aff(rng.choice(pts2))))
     return L
 
+# --------------------------------------------------------------------------- WKD-IBE / LQ-IBE scenarios
+class WkScenario:
+    """generates op lines and mirrors the harness's object numbering"""
+    def __init__(self, rng):
+        self.rng = rng; self.L = []; self.nP = self.nM = self.nK = self.nC = self.nS = self.nR = 0
+        self.lP = self.lM = self.lI = self.lS = self.lC = 0
+    def stream(self, n=4000): return bytes(self.rng.getrandbits(8) for _ in range(n)).hex()
+    def val(self):
+        r = self.rng
+        return r.choice([1, 2, 5, R - 1, R, R + 1, (1 << 256) - 1, 0, r.randrange(R), r.getrandbits(256), r.getrandbits(64)])
+    @staticmethod
+    def spec(attrs):
+        if not attrs: return "-"
+        return ",".join("%d:%s%s" % (i, hx(v, 256), ":h" if h else "") for (i, v, h) in sorted(attrs))
+    def setup(self, l, sig):
+        self.L.append("wk_setup %d %d %s" % (l, 1 if sig else 0, self.stream(49 * 30 * (l + 6) + 2000)))
+        self.nP += 1; self.nM += 1; return self.nP - 1, self.nM - 1
+    def key(self, op, a, b, attrs, omitAll=False, random=True):
+        self.L.append("%s %d %d %d %s%s" % (op, a, b, 1 if omitAll else 0, self.spec(attrs), (" " + self.stream(400)) if random else ""))
+        self.nK += 1; return self.nK - 1
+    def adjustnd(self, sk, parent, fr, to):
+        self.L.append("wk_adjustnd %d %d 0 %s 0 %s" % (sk, parent, self.spec(fr), self.spec(to))); self.nK += 1; return self.nK - 1
+    def pre(self, p, attrs):
+        self.L.append("wk_precompute %d 0 %s" % (p, self.spec(attrs))); self.nR += 1; return self.nR - 1
+    def adjustpre(self, rr, p, fr, to):
+        self.L.append("wk_adjustpre %d %d 0 %s 0 %s" % (rr, p, self.spec(fr), self.spec(to))); self.nR += 1; return self.nR - 1
+    def resample(self, p, rr, k, further):
+        self.L.append("wk_resample %d %d %d %d %s" % (p, rr, k, 1 if further else 0, self.stream(400))); self.nK += 1; return self.nK - 1
+    def encrypt(self, p, attrs, pre=None):
+        m = self.rng.randrange(1, R)
+        if pre is None: self.L.append("wk_encrypt %d 0 %s %s %s" % (p, self.spec(attrs), hx(m, 256), self.stream(400)))
+        else: self.L.append("wk_encryptpre %d %d %s %s" % (p, pre, hx(m, 256), self.stream(400)))
+        self.nC += 1; return self.nC - 1
+    def ctmod(self, c, which): self.L.append("wk_ctmod %d %s" % (c, which)); self.nC += 1; return self.nC - 1
+    def decrypt(self, c, k, expect="-"): self.L.append("wk_decrypt %d %d %s" % (c, k, expect))
+    def decryptm(self, c, m): self.L.append("wk_decryptm %d %d" % (c, m))
+    def sign(self, p, k, attrs, msg, pre=None, nullattrs=False):
+        if pre is None: self.L.append("wk_sign %d %d 0 %s %s %s" % (p, k, self.spec(attrs), hx(msg, 256), self.stream(400)))
+        else: self.L.append("wk_signpre %d %d 0 %s %d %d %s %s" % (p, k, self.spec(attrs), pre, 1 if nullattrs else 0, hx(msg, 256), self.stream(400)))
+        self.nS += 1; return self.nS - 1
+    def sigmod(self, s_, which): self.L.append("wk_sigmod %d %s" % (s_, which)); self.nS += 1; return self.nS - 1
+    def verify(self, p, attrs, s_, msg, pre=None):
+        if pre is None: self.L.append("wk_verify %d 0 %s %d %s" % (p, self.spec(attrs), s_, hx(msg, 256)))
+        else: self.L.append("wk_verifypre %d %d %d %s" % (p, pre, s_, hx(msg, 256)))
+
+def pattern_attrs(pat, vals):
+    """pattern string over f/x/h -> attribute list [(idx, value, hidden)]"""
+    out = []
+    for i, ch in enumerate(pat):
+        if ch == "x": out.append((i, vals[i], False))
+        elif ch == "h": out.append((i, 0, True))
+    return out
+
+def child_patterns(parent, rng, count):
+    """admissible steps from a parent pattern: fixed stay fixed, hidden stay hidden, free -> f/x/h"""
+    import itertools
+    free = [i for i, ch in enumerate(parent) if ch == "f"]
+    allc = list(itertools.product("fxh", repeat=len(free)))
+    rng.shuffle(allc)
+    res = []
+    for combo in allc[:count]:
+        p = list(parent)
+        for i, ch in zip(free, combo): p[i] = ch
+        res.append("".join(p))
+    return res
+
+def gen_wkdibe(rng, n, tier):
+    import itertools
+    S = WkScenario(rng)
+    l = 4 if tier != "thorough" else 5
+    p0, m0 = S.setup(l, True)
+    vals = [S.val() for _ in range(l)]
+    pats = ["".join(t) for t in itertools.product("fxh", repeat=l)]
+    rng.shuffle(pats)
+    first = pats[: (10 if tier != "thorough" else 60)] + ["f" * l, "x" * l, "h" * l, "fxhf"[:l].ljust(l, "f"), "xfhf"[:l].ljust(l, "x")]
+    keys = {}
+    for pat in first:
+        k = S.key("wk_keygen", p0, m0, pattern_attrs(pat, vals)); keys[k] = pat
+        kn = S.key("wk_ndkeygen", p0, m0, pattern_attrs(pat, vals), random=False); keys[kn] = pat
+    # omit-all-unless-present
+    ko = S.key("wk_keygen", p0, m0, pattern_attrs("xf" + "f" * (l - 2), vals), omitAll=True); keys[ko] = "xh" + "h" * (l - 2)
+    # two-step histories (delegable and non-delegable), including hiding a free slot in the middle (cursor bugs)
+    parents = [(k, pat) for (k, pat) in keys.items() if "f" in pat]
+    rng.shuffle(parents)
+    for (k, pat) in parents[: (6 if tier != "thorough" else 30)]:
+        for cp in child_patterns(pat, rng, 3 if tier != "thorough" else 9):
+            # the list must repeat the parent's fixed slots; hidden slots of the parent may be repeated as hidden or left out
+            attrs = [(i, vals[i] + (R if rng.random() < 0.2 and vals[i] + R < (1 << 256) else 0), False) for i, ch in enumerate(cp) if ch == "x"]
+            attrs += [(i, 0, True) for i, ch in enumerate(cp) if ch == "h" and (pat[i] == "f" or rng.random() < 0.5)]
+            isnd = rng.random() < 0.5
+            ck = S.key("wk_ndqualify" if isnd else "wk_qualify", p0, k, attrs, random=not isnd)
+            keys[ck] = cp
+            if "f" in cp and rng.random() < 0.5:
+                for cp2 in child_patterns(cp, rng, 1):
+                    attrs2 = [(i, vals[i], False) for i, ch in enumerate(cp2) if ch == "x"] + [(i, 0, True) for i, ch in enumerate(cp2) if ch == "h" and cp[i] == "f"]
+                    ck2 = S.key("wk_qualify", p0, ck, attrs2); keys[ck2] = cp2
+    # the witness of the cursor defect: parent {0 fixed}, step {0, 2 hidden, 4 fixed} with l >= 5 handled by thorough l; here l=4 variant
+    kp = S.key("wk_keygen", p0, m0, [(0, vals[0], False)]); keys[kp] = "x" + "f" * (l - 1)
+    stepw = [(0, vals[0], False), (1, 0, True), (3, vals[3], False)]
+    for op in ("wk_qualify", "wk_ndqualify"):
+        kk = S.key(op, p0, kp, stepw, random=(op == "wk_qualify")); keys[kk] = "xhfx"[:l]
+    # encrypt / decrypt: matching, equal mod r, mismatching, master
+    klist = list(keys.items()); rng.shuffle(klist)
+    for (k, pat) in klist[: (8 if tier != "thorough" else 40)]:
+        fixed = [(i, vals[i], False) for i, ch in enumerate(pat) if ch == "x"]
+        ct = S.encrypt(p0, fixed)
+        S.decrypt(ct, k); S.decryptm(ct, m0)
+        alt = [(i, (v + R) if v + R < (1 << 256) else v % R, False) for (i, v, _) in fixed]
+        if alt:
+            ct2 = S.encrypt(p0, alt); S.decrypt(ct2, k)
+        # one slot different (value changed, or a free/hidden slot given a value)
+        i = rng.randrange(l)
+        bad = [a for a in fixed if a[0] != i] + [(i, (vals[i] + 1 + rng.randrange(5)) % (1 << 256), False)]
+        ct3 = S.encrypt(p0, bad); S.decrypt(ct3, k, "ne"); S.decryptm(ct3, m0)
+        for which in ("a", "b", "c"):
+            cm = S.ctmod(ct, which); S.decrypt(cm, k, "ne")
+    # hidden slots cannot be filled: try to give a hidden slot a value through all qualification paths
+    kh = S.key("wk_keygen", p0, m0, [(0, vals[0], False), (1, 0, True)]); hp = "xh" + "f" * (l - 2)
+    fill = [(0, vals[0], False), (1, 7, False)]
+    cth = S.encrypt(p0, fill)
+    S.decrypt(cth, kh, "ne")
+    for op in ("wk_qualify", "wk_ndqualify"):
+        kf = S.key(op, p0, kh, fill, random=(op == "wk_qualify")); S.decrypt(cth, kf, "ne")
+    knd = S.key("wk_ndqualify", p0, kh, [(0, vals[0], False)], random=False)
+    ka = S.adjustnd(knd, kh, [(0, vals[0], False)], fill); S.decrypt(cth, ka, "ne")
+    # precomputation: adjust == recompute, chains, ids >= r, insertions / deletions / changes / empty
+    lists = [[], [(0, vals[0], False)], [(1, vals[1], False), (3, vals[3], False)], [(0, (1 << 256) - 1, False)], [(0, R, False), (2, R + 1, False)],
+             [(i, vals[i], False) for i in range(l)], [(2, 5, False)], [(0, vals[0], False), (2, 0, False)]]
+    for _ in range(n):
+        a, b = rng.choice(lists), rng.choice(lists)
+        ra = S.pre(p0, a); rb = S.adjustpre(ra, p0, a, b)
+        if rng.random() < 0.5:
+            c = rng.choice(lists); S.adjustpre(rb, p0, b, c)
+        ctp = S.encrypt(p0, None, pre=rb)
+        km = S.key("wk_ndkeygen", p0, m0, b, random=False); S.decrypt(ctp, km)
+    S.adjustpre(S.pre(p0, [(0, (1 << 256) - 1, False)]), p0, [(0, (1 << 256) - 1, False)], [(0, 0, False)])
+    S.adjustpre(S.pre(p0, [(1, (1 << 256) - 1, False)]), p0, [(1, (1 << 256) - 1, False)], [])
+    # adjust_nondelegable == qualifying the parent directly
+    for (k, pat) in parents[:4]:
+        free = [i for i, ch in enumerate(pat) if ch == "f"]
+        base = [(i, vals[i], False) for i, ch in enumerate(pat) if ch == "x"]
+        def pick():
+            ch = rng.sample(free, rng.randrange(0, len(free) + 1))
+            return sorted(base + [(i, S.val(), False) if rng.random() < 0.7 else (i, 0, True) for i in ch])
+        fa, ta = pick(), pick()
+        kfrom = S.key("wk_ndqualify", p0, k, fa, random=False)
+        kadj = S.adjustnd(kfrom, k, fa, ta)
+        tb = pick(); S.adjustnd(kadj, k, ta, tb)
+    # resampling
+    for (k, pat) in klist[:3]:
+        fixed = [(i, vals[i], False) for i, ch in enumerate(pat) if ch == "x"]
+        rr = S.pre(p0, fixed)
+        for further in (True, False):
+            kr = S.resample(p0, rr, k, further); ct = S.encrypt(p0, fixed); S.decrypt(ct, kr)
+    # signatures
+    for (k, pat) in klist[: (4 if tier != "thorough" else 20)]:
+        fixed = [(i, vals[i], False) for i, ch in enumerate(pat) if ch == "x"]
+        free = [i for i, ch in enumerate(pat) if ch == "f"]
+        ext = sorted(fixed + [(i, S.val(), False) for i in rng.sample(free, rng.randrange(0, len(free) + 1))])
+        msg = rng.choice([0, 1, R - 1, R, (1 << 256) - 1, rng.getrandbits(256)])
+        sg = S.sign(p0, k, ext, msg)
+        S.verify(p0, ext, sg, msg)
+        S.verify(p0, ext, sg, (msg + 1) % (1 << 256))
+        if msg + R < (1 << 256): S.verify(p0, ext, sg, msg + R)
+        other = [a for a in ext[1:]] if ext else [(0, 3, False)]
+        S.verify(p0, other, sg, msg)
+        for which in ("a0", "a1"): S.verify(p0, ext, S.sigmod(sg, which), msg)
+        rp = S.pre(p0, ext); sg2 = S.sign(p0, k, ext, msg, pre=rp); S.verify(p0, None, sg2, msg, pre=rp); S.verify(p0, ext, sg2, msg)
+        hidden = [i for i, ch in enumerate(pat) if ch == "h"]
+        if hidden:
+            bad = sorted(fixed + [(hidden[0], 9, False)])
+            sb = S.sign(p0, k, bad, msg); S.verify(p0, bad, sb, msg)
+    return S.L
+
+def gen_marshal(rng, n, tier):
+    S = WkScenario(rng); L = S.L
+    l = 3
+    for sig in (True, False):
+        p0, m0 = S.setup(l, sig)
+        vals = [S.val() for _ in range(l)]
+        ks = [S.key("wk_keygen", p0, m0, pattern_attrs(pat, vals)) for pat in ("fff", "xff", "xhf", "xxx", "hhh")]
+        ct = S.encrypt(p0, [(0, vals[0], False)])
+        sg = S.sign(p0, ks[1], [(0, vals[0], False)], 5)
+        for comp in (1, 0):
+            objs = [("params", p0), ("msk", m0), ("ct", ct), ("sig", sg)] + [("sk", k) for k in ks]
+            for (ty, oid) in objs:
+                L.append("wk_m %s %d %d" % (ty, oid, comp))
+    # the unmarshal lines need the marshalled bytes: produced by a second pass in the check (see expand_marshal)
+    L.append("#EXPAND-UNMARSHAL")
+    for comp in (1, 0):
+        for ty in ("params", "sk"):
+            for fb in (0, 1, 255):
+                lens = list(range(1, 1200 if tier != "thorough" else 8193)) if (fb, ty) in ((0, "params"), (1, "sk")) or tier == "thorough" else [rng.randrange(1, 3000) for _ in range(60)]
+                for nlen in lens:
+                    L.append("wk_len %s %d %d %d" % (ty, comp, fb, nlen))
+    return L
+
+def expand_unmarshal(lines, outs, rng, tier):
+    """second pass: turn the bytes produced by wk_m / lq_m lines into unmarshal lines (valid, both check modes; then
+    single-byte corruptions of every region, truncations and extensions)"""
+    extra = []
+    for l, o in zip(lines, outs):
+        t = l.split(); ot = o.split()
+        if t[0] == "wk_m" and len(ot) == 4:
+            ty, comp, hexb = t[1], t[3], ot[3]
+        elif t[0] == "lq_m" and len(ot) == 3:
+            ty, comp, hexb = t[1], t[3], ot[2]
+        else:
+            continue
+        op = "wk_um" if t[0] == "wk_m" else "lq_um"
+        b = bytes.fromhex(hexb) if hexb != "-" else b""
+        extra.append("%s %s %s 1 %s" % (op, ty, comp, hexb)); extra.append("%s %s %s 0 %s" % (op, ty, comp, hexb))
+        if op == "lq_um" and ty == "msk": continue
+        step = 40 if tier != "thorough" else 12
+        poss = sorted(set([0, 1, len(b) - 1] + list(range(2, len(b), step)) + [rng.randrange(len(b)) for _ in range(4)]))
+        for pos in poss:
+            m = bytearray(b); m[pos] ^= 1 << rng.randrange(8)
+            extra.append("%s %s %s 1 %s" % (op, ty, comp, bytes(m).hex()))
+            if rng.random() < 0.15: extra.append("%s %s %s 0 %s" % (op, ty, comp, bytes(m).hex()))
+        if op == "wk_um" and ty in ("params", "sk"):
+            extra.append("%s %s %s 1 %s" % (op, ty, comp, b[:-1].hex()))
+            extra.append("%s %s %s 1 %s" % (op, ty, comp, (b + b"\x00").hex()))
+            extra.append("%s %s %s 1 %s" % (op, ty, comp, b[:1].hex()))
+    return extra
+
+def gen_lqibe(rng, n, tier):
+    S = WkScenario(rng); L = S.L
+    L.append("lq_setup %s" % S.stream(49 * 60)); nP = 1; nM = 1
+    msks = [0]
+    for sval in (R, R + 5, (1 << 256) - 1, 0, 1):
+        L.append("lq_msk %s" % sval.to_bytes(32, "little").hex()); msks.append(nM); nM += 1
+    ids = []
+    for h in [bytes(rng.getrandbits(8) for _ in range(48)) for _ in range(max(2, n // 3))] + [b"\x00" * 48, b"\xff" * 48]:
+        L.append("lq_id %s" % h.hex()); ids.append(len(ids))
+    nS = 0; nC = 0
+    for m in msks[:3] + [msks[-1]]:
+        for i in ids[:2]:
+            L.append("lq_keygen %d %d" % (m, i)); nS += 1
+    # encrypt/decrypt with the matching key (master 0), all lengths incl. 0
+    L.append("lq_keygen 0 0"); sk00 = nS; nS += 1
+    L.append("lq_keygen 0 1"); sk01 = nS; nS += 1
+    for klen in (0, 1, 16, 32, 100):
+        L.append("lq_encrypt 0 0 %d %s" % (klen, S.stream(400))); c = nC; nC += 1
+        L.append("lq_decrypt %d %d 0 %d" % (c, sk00, klen))
+        L.append("lq_decrypt %d %d 1 %d" % (c, sk01, klen))       # other identity: different bytes
+        L.append("lq_ctmod %d" % c); cm = nC; nC += 1
+        L.append("lq_decrypt %d %d 0 %d" % (cm, sk00, klen))
+    for comp in (1, 0):
+        for (ty, oid) in (("params", 0), ("id", 0), ("msk", 0), ("msk", 1), ("sk", sk00), ("ct", 0)):
+            L.append("lq_m %s %d %d" % (ty, oid, comp))
+    L.append("#EXPAND-UNMARSHAL")
+    return L
+
 GROUPS = {"bigint": gen_bigint, "fp": gen_fp, "tower": gen_tower, "curve": gen_curve, "scalar": gen_scalar, "gt": gen_gt,
-          "pairing": gen_pairing, "encoding": gen_encoding, "sampling": gen_sampling, "capi": gen_capi}
+          "pairing": gen_pairing, "encoding": gen_encoding, "sampling": gen_sampling, "capi": gen_capi, "wkdibe": gen_wkdibe, "marshal": gen_marshal, "lqibe": gen_lqibe}
 
 def generate(group, seed, n, tier):
     rng = random.Random("%s/%d" % (group, seed))
